@@ -430,6 +430,13 @@ func (g docGen) mutate(doc *jobj, kind string) string {
 		case 2:
 			t.o.del(g.pick("hostPath", "containerPath"))
 		}
+		if g.maybe(60) {
+			// the defect must reject whatever the other members say
+			t.o.set("type", jstr(g.pick("tmpfs", "bind", "")))
+		}
+		if g.maybe(25) {
+			t.o.set("options", strs(g.pick("ro", "rw", "size=1m", "")))
+		}
 		return kind + "@" + t.level
 	case "bad-rdt":
 		t, ok := pickT(byLevel("-edits"))
@@ -444,7 +451,17 @@ func (g docGen) mutate(doc *jobj, kind string) string {
 			return ""
 		}
 		a := obj("ok.key", jstr("v"))
-		switch g.rng.Intn(5) {
+		switch g.rng.Intn(7) {
+		case 5:
+			// the size limit is on the total of keys and values, not per entry: several entries, each within the limit
+			n := 2 + g.rng.Intn(2)
+			for i := 0; i < n; i++ {
+				a.set(fmt.Sprintf("part%d", i), jstr(strings.Repeat("v", 300*1024/n)))
+			}
+		case 6:
+			// exactly one byte over the limit in total ("ok.key"+"v" = 7 bytes, "k1"/"k2" = 4 bytes)
+			a.set("k1", jstr(strings.Repeat("a", 131072)))
+			a.set("k2", jstr(strings.Repeat("b", 262144-131072-7-4+1)))
 		case 0:
 			a.set(g.pick("bad key!", "", "a/b/c", "/x", "x/", "-x", "x-", "UPPER.com/-bad", "a..b/x", strings.Repeat("n", 64)), jstr("v"))
 		case 1:
@@ -509,6 +526,17 @@ func (validateStream) Generate(rng *rand.Rand, tier string, emit func(Case)) {
 	}
 	for i := 0; i < nValid; i++ {
 		emit(Case{"op": "admit_doc", "doc": docToProto(g.spec()), "label": "well-formed"})
+	}
+	// annotations of exactly the maximal total size (256 KiB of keys and values) are admitted
+	for _, where := range []string{"spec", "device"} {
+		d := g.spec()
+		a := obj("k1", jstr(strings.Repeat("a", 131072)), "k2", jstr(strings.Repeat("b", 262144-131072-4)))
+		if where == "spec" {
+			d.set("annotations", a)
+		} else if devs, _ := d.get("devices"); len(devs.(jarr)) > 0 {
+			devs.(jarr)[0].(*jobj).set("annotations", a)
+		}
+		emit(Case{"op": "admit_doc", "doc": docToProto(d), "label": "annotations-at-size-limit"})
 	}
 	for _, kind := range mutationKinds {
 		for i := 0; i < perKind; i++ {
